@@ -539,7 +539,7 @@ package secp256k1
 //@   modifies *v
 //@
 //@ func (*Point).DoubleScalarMultBasepointVartime
-//@   props C16 C07 C11 C13
+//@   props C16 C04 C07 C11 C13
 //@   panics !p.isValid
 //@   ensures v.isValid && abs(v) == padd(smul(old(val(u1)), G), smul(old(val(u2)), old(abs(p)))) && result == v
 //@   modifies *v
